@@ -167,12 +167,16 @@ def touchesShared (x : String) : Bool :=
 
 /-- `serve`: everything the workers and callbacks will read is written before the first worker is
 started, the workers are started before `stateStarted` is published, and after that `serve` itself
-no longer touches the shared run-time fields (a concurrent `Shutdown` may be clearing them). -/
+no longer touches the shared run-time fields (a concurrent `Shutdown` may be clearing them).  The
+only other value `serve` may publish is `stateStopped`, on a return before anything was started
+(source order lists the branches one after the other). -/
 def serveOrderOk (xs : List String) : Bool :=
   noneFrom xs "go:Service.startWorker" isPlainWrite &&
-  noneFrom xs "aw:state" touchesShared &&
-  noneBefore xs "go:Service.startWorker" (· == "aw:state") &&
-  noneBefore xs "aw:state" (· == "call:Service.subscribe")
+  noneFrom xs "aw:state=stateStarted" touchesShared &&
+  noneBefore xs "go:Service.startWorker" (· == "aw:state=stateStarted") &&
+  noneBefore xs "aw:state=stateStarted" (· == "call:Service.subscribe") &&
+  noneFrom xs "go:Service.startWorker" (· == "aw:state=stateStopped") &&
+  xs.all (fun x => !x.startsWith "aw:state" || x == "aw:state=stateStarted" || x == "aw:state=stateStopped")
 
 /-- `subscribe` runs after `stateStarted` has been published: it must not read the fields that a
 concurrent `Shutdown` clears. -/
@@ -180,8 +184,8 @@ def subscribeOrderOk (xs : List String) : Bool := xs.all (fun x => !touchesShare
 
 /-- `Shutdown`: the CAS comes first, `stateStopped` is published last. -/
 def shutdownOrderOk (xs : List String) : Bool :=
-  xs.head? == some "aw:state" &&
-  (xs.reverse.dropWhile (fun x => x.startsWith "call:")).head? == some "aw:state" &&
+  xs.head? == some "aw:state=stateStopping" &&
+  (xs.reverse.dropWhile (fun x => x.startsWith "call:")).head? == some "aw:state=stateStopped" &&
   noneBefore xs "call:Service.close" touchesShared
 
 /-! ## what the policies buy: a minimal happens-before reading
